@@ -379,7 +379,7 @@ CHECKS["C16"] = {
              "otherwise the default listener with the byte stream identical from byte 0 - or is closed, never both, never twice; a connection that arrived while an Accept was pending on its listener is delivered, not closed; after Run returned no Accept stays pending. "
              "header: 1..3 goroutines writing 0..3 chunks each through a HeaderConn over a recording connection whose first or second underlying write can be held until everybody else is blocked; the wire must be the header once, first, followed by every payload byte exactly once, and each Write must return its own length. "
              "Non-trivial: a connection was delivered with routes registered or with the prefix split across writes (mux); >= 2 writes (header). " 
-             "dial: the three documented ways of dialing with a header (HeaderDialer.Dial, HeaderDialer.DialContext, DialWithHeader) over a unix socket in a scratch directory, 0..3 writes of 0/1/8/100 bytes: the peer reads the header once, first, then the payload.""),
+             "dial: the three documented ways of dialing with a header (HeaderDialer.Dial, HeaderDialer.DialContext, DialWithHeader) over a unix socket in a scratch directory, 0..3 writes of 0/1/8/100 bytes: the peer reads the header once, first, then the payload."),
     "assumptions": ["events are sequenced with quiescence between them, so the set of live routes at the moment a connection arrives is known to the oracle; orders inside one event's burst are left to the Go scheduler"],
     "subs": [
         {"test": "TestC16Mux", "prop": "C16/mux", "quick": 20000, "thorough": 800000, "shards_quick": 16, "shards_thorough": 16},
